@@ -17,7 +17,7 @@ def dec(c):
         nonlocal p
         kind, m = c[p], c[p + 1]; p += 2
         items = [(c[p + 2 * i], c[p + 2 * i + 1]) for i in range(m)]; p += 2 * m
-        return ("T" if kind == 0 else "B") + str(items)
+        return ("T" if kind == 0 else "D%d" % kind if kind >= 10 else "B") + str(items)
     def types():
         nonlocal p
         k = c[p]; ts = c[p + 1:p + 1 + k]; p += 1 + k
@@ -26,7 +26,7 @@ def dec(c):
     while p < len(c):
         STARTS.append(p)
         o = c[p]
-        if 100 <= o <= 115:
+        if 100 <= o <= 116:
             p += 1
             def take(n):
                 nonlocal p
@@ -34,7 +34,7 @@ def dec(c):
             def astt():
                 n = take(1)[0]; return take(n)
             if o in (100, 104, 105): a = take(2); ops.append("g%d w%d q#%d %s" % (o, a[0], a[1], astt()))
-            elif o in (101, 103, 107, 109, 112): ops.append("g%d slot %s" % (o, take(1)))
+            elif o in (101, 103, 107, 109, 112, 116): ops.append("g%d slot %s" % (o, take(1)))
             elif o in (102, 110): a = take(4); ops.append("g%d slot=%d kind=%d r=%d newq=%d %s" % (o, a[0], a[1], a[2], a[3], astt()))
             elif o == 106: wv = take(1); hh = href(); a = take(2); ops.append("gref w%s %s t=%d uniq=%d" % (wv, hh, a[0], a[1]))
             elif o == 108: wv = take(1); hh = href(); qi = take(1); ops.append("gone w%s %s q#%s %s" % (wv, hh, qi, astt()))
@@ -79,10 +79,12 @@ def dec(c):
         elif o == 12: ops.append("flush w%d" % w)
         elif o == 13:
             ts = types(); ops.append("reserve<%s> w%d %d" % (ts, w, c[p])); p += 1
-        elif o in (14, 15):
+        elif o in (14, 15, 17, 18, 19):
+            if o >= 18:
+                p += 1
             ts = types(); n = c[p]; p += 1
             vals = c[p:p + n * len(ts)]; p += n * len(ts)
-            ops.append("%s w%d %s n=%d %s" % ("spawn_batch" if o == 14 else "column_batch", w, ts, n, vals))
+            ops.append("%s w%d %s n=%d %s" % ({14: "spawn_batch", 15: "column_batch", 17: "extend", 18: "spawn_batch_partial", 19: "column_batch_partial"}[o], w, ts, n, vals))
         elif o == 16:
             ts = types(); n = c[p]; p += 1
             hs = [href() for _ in range(n)]
